@@ -145,6 +145,26 @@ def oracle_pca(ck, rng):
             lab = np.asarray(clf.labels)
             agree = max((lab == grp).mean(), (lab != grp).mean())
             if agree < 0.99: fails.append(f"separated groups not split (agreement {agree:.2f})")
+            # accessors: rows selected by index, base images, stacks split by label, and projection of new stacks
+            full_t = clf.get_transform()
+            sel = [int(x) for x in rng.permutation(N)[:5]]
+            if not np.allclose(clf.get_transform(sel), full_t[sel], atol=1e-4 * S[0]) or not np.allclose(clf.get_transform(iter(sel)), full_t[sel], atol=1e-4 * S[0]):
+                fails.append("get_transform(labels) is not the selected rows of get_transform()")
+            bases = clf.get_bases()
+            if bases.shape != (k,) + shape or not np.array_equal(bases.reshape(k, -1), comp):
+                fails.append("get_bases is not the components reshaped to images")
+            parts = clf.split_clusters()
+            if len(parts) != 2 or any(not np.array_equal(np.asarray(parts[c_]), X[lab == c_]) for c_ in range(2)):
+                fails.append("split_clusters does not return, for each label, exactly the images carrying it (in order)")
+            again = clf.transform(da.from_array(X[sel]) if i % 2 else da.from_array(X[sel], chunks=(2,) + shape))
+            if not np.allclose(again, full_t[sel], atol=1e-3 * S[0]):
+                fails.append("transform(images) differs from the stored projection of the same images")
+            if mask is not None:
+                premasked = clf.transform(da.from_array(X[sel] * mask), mask=False)
+                if not np.allclose(premasked, full_t[sel], atol=1e-3 * S[0]) and float(np.abs(mask * mask - mask).max()) < 1e-6:
+                    fails.append("transform(masked images, mask=False) differs from transform(images)")
+            if not np.array_equal(clf.predict(da.from_array(X[sel])), lab[sel]):
+                fails.append("predict(images) differs from the labels given to the same images")
         except Exception as e:  # noqa
             fails = [f"raised {type(e).__name__}: {str(e)[:120]}"]
         ck.oracle_count("pca_vs_exact_svd", 1, 1)
@@ -293,6 +313,56 @@ def oracle_labels(ck, rng):
         acl.PcaClassifier = real
 
 
+def oracle_dask_pca_surface(ck, rng):
+    """the out-of-core PCA object itself, for the solvers it can choose and several chunkings: fit followed by transform, fit_transform
+    and inverse_transform agree with the exact SVD of the centred data (projections up to the sign of each component)"""
+    from acryo.classification._dask_pca import DaskPCA
+    import dask.array as da
+    for it in range(3 if ck.tier == "quick" else 20):
+        N = int(rng.integers(20, 60)); F = int(rng.integers(8, 30)); k = int(rng.integers(1, 4))
+        X = (rng.normal(size=(N, F)) * np.linspace(3.0, 0.3, F)).astype(np.float64) + rng.normal(size=F)
+        mean = X.mean(axis=0)
+        U, S, Vt = np.linalg.svd(X - mean, full_matrices=False)
+        proj = (X - mean) @ Vt[:k].T
+        for solver in ("full", "tsqr", "auto"):
+            for rows in (N, max(F, N // 2 + 1), 7):
+                if solver != "auto" and rows < F and solver == "tsqr":
+                    pass
+                Xd = da.from_array(X, chunks=(rows, F))
+                c = {"N": N, "F": F, "n_components": k, "solver": solver, "row_chunk": rows, "seed": ck.seed, "iteration": it}
+                fails = []
+                try:
+                    p1 = DaskPCA(n_components=k, svd_solver=solver)
+                    p1.fit(Xd)
+                    t1 = np.asarray(p1.transform(Xd))
+                    p2 = DaskPCA(n_components=k, svd_solver=solver)
+                    t2 = np.asarray(p2.fit_transform(Xd))
+                    sg = np.sign(np.sum(np.asarray(p1.components_) * Vt[:k], axis=1))
+                    sg2 = np.sign(np.sum(np.asarray(p2.components_) * Vt[:k], axis=1))
+                    tol = 1e-6 * S[0]
+                    if np.abs(np.asarray(p1.singular_values_) - S[:k]).max() > tol: fails.append("singular values differ from the exact SVD")
+                    if np.abs(np.asarray(p1.mean_) - mean).max() > 1e-9 * (1 + np.abs(mean).max()): fails.append("mean_ is not the column mean")
+                    if np.abs(t1 * sg - proj).max() > tol: fails.append("fit + transform differs from the exact projection")
+                    if np.abs(t2 * sg2 - proj).max() > tol: fails.append("fit_transform differs from the exact projection")
+                    back = np.asarray(p1.inverse_transform(da.from_array(t1, chunks=(rows, k))))
+                    want = proj @ Vt[:k] + mean
+                    if np.abs(back - want).max() > tol: fails.append("inverse_transform(transform(X)) is not the rank-k approximation of X")
+                    ev = S[:k] ** 2 / (N - 1)
+                    if np.abs(np.asarray(p1.explained_variance_) - ev).max() > 1e-6 * ev[0]: fails.append("explained_variance_ is not S^2/(n-1)")
+                    pw = DaskPCA(n_components=k, svd_solver=solver, whiten=True)
+                    tw2 = np.asarray(pw.fit_transform(Xd)); tw1 = np.asarray(pw.transform(Xd))
+                    sgw = np.sign(np.sum(np.asarray(pw.components_) * Vt[:k], axis=1))
+                    if np.abs(tw1 * sgw - proj / np.sqrt(ev)).max() > 1e-6 or np.abs(tw2 * sgw - proj / np.sqrt(ev)).max() > 1e-6:
+                        fails.append("whitened projections (transform / fit_transform) are not the exact scores divided by their standard deviation")
+                    if np.abs(np.asarray(p1.explained_variance_ratio_) - ev / ((S ** 2).sum() / (N - 1))).max() > 1e-6: fails.append("explained_variance_ratio_ is wrong")
+                except Exception as e:  # noqa
+                    fails = [f"raised {type(e).__name__}: {str(e)[:120]}"]
+                ck.oracle_count("dask_pca_surface", 1, 1)
+                for f in fails[:2]:
+                    ck.violation(what=f"DaskPCA({solver}, rows per chunk {rows}): {f}", inp=c, key={"site": "dask-pca-surface", "solver": solver, "symptom": f.split(" ")[0]},
+                                 oracle="dask_pca_surface", measured=f)
+
+
 def run(ck: common.Check):
     ck.design_ref = "DESIGN.md §6 C18"
     ck.trusted_base = TB
@@ -309,6 +379,7 @@ def run(ck: common.Check):
     corr_data_path(ck, np.random.default_rng(ck.seed + 181818))
     oracle_pca(ck, rng)
     oracle_labels(ck, rng)
+    oracle_dask_pca_surface(ck, np.random.default_rng(ck.seed + 18018))
 
 
 def replay(data):
